@@ -19,6 +19,44 @@ fn divisor(tcr: u8) -> u32 {
 }
 
 pub const REQ_MAX: usize = 40;
+pub static mut IRQ_LOG: [u8; REQ_MAX] = [0; REQ_MAX];
+pub static mut IRQ_N: usize = 0;
+
+/// Stub for `InterruptController::request_interrupt` (Kani only): the real VecDeque is verified to be
+/// an appending FIFO in C10; with it, 33 ticks x 3 possible pushes did not get through symbolic
+/// execution in 20 minutes.
+pub fn ghost_request_interrupt(_ic: &mut crate::cpu::interrupt_controller::InterruptController, num: u8) {
+    unsafe {
+        if IRQ_N < REQ_MAX {
+            IRQ_LOG[IRQ_N] = num;
+        }
+        IRQ_N += 1;
+    }
+}
+
+fn irq_len(cpu: &Cpu) -> usize {
+    #[cfg(kani)]
+    {
+        let _ = cpu;
+        unsafe { IRQ_N }
+    }
+    #[cfg(not(kani))]
+    {
+        cpu.vh_pending_len()
+    }
+}
+
+fn irq_at(cpu: &Cpu, i: usize) -> Option<u8> {
+    #[cfg(kani)]
+    {
+        let _ = cpu;
+        unsafe { if i < IRQ_N && i < REQ_MAX { Some(IRQ_LOG[i]) } else { None } }
+    }
+    #[cfg(not(kani))]
+    {
+        cpu.vh_pending(i)
+    }
+}
 
 /// One `update_modules(charge)` from an arbitrary timer state equals the tick-by-tick reference:
 /// floor((residual + charge) / divisor) counts, compare-match / overflow flags, counter clear, one
@@ -36,6 +74,9 @@ pub fn update_step<S: Src>(s: &mut S, max_charge: u8) {
     // where the hardware manual leaves simultaneous events open
     s.assume(!(cclr == 1 || cclr == 2) || (tcora != tcorb && tcora != 0 && tcorb != 0));
     let mut cpu = Cpu::new();
+    unsafe {
+        IRQ_N = 0;
+    }
     cpu.vh_module_manager().borrow_mut().write_registers(TCR0_ADDR, tcr);
     cpu.vh_module_manager().borrow_mut().vh_timer8_0_set_state(res0);
     cpu.bus.io_registrs2[I_TCR] = tcr;
@@ -94,10 +135,10 @@ pub fn update_step<S: Src>(s: &mut S, max_charge: u8) {
     let ok_flags = cpu.bus.io_registrs2[I_TCSR] == tcsr;
     let (st, _presc) = cpu.vh_module_manager().borrow().vh_timer8_0();
     let ok_residual = st as u32 == res1;
-    let mut ok_irq = cpu.vh_pending_len() == nreq;
+    let mut ok_irq = irq_len(&cpu) == nreq;
     let mut i = 0;
     while i < REQ_MAX {
-        if i < nreq && cpu.vh_pending(i) != Some(req[i]) {
+        if i < nreq && irq_at(&cpu, i) != Some(req[i]) {
             ok_irq = false;
         }
         i += 1;
